@@ -24,9 +24,11 @@ import (
 	"sort"
 	"strings"
 	"sync"
+	"testing/fstest"
 
 	"github.com/open-policy-agent/opa/v1/ast"
 	"github.com/open-policy-agent/opa/v1/rego"
+	"github.com/open-policy-agent/opa/v1/topdown/print"
 	"gopkg.in/yaml.v3"
 
 	rbundle "github.com/styrainc/regal/bundle"
@@ -171,6 +173,27 @@ type CaseIn struct {
 	// gated rules ("category/title") switched off in the configuration (level: ignore): they must neither
 	// report nor be listed as skipped
 	Disabled []string `json:"disabled"`
+	// the other linter options that rewrite or wrap the user configuration before it reaches Rego (nil: none)
+	Pipe *Pipe `json:"pipe,omitempty"`
+}
+
+// Pipe: linter options crossed with the target. Whatever they are, the capabilities the Rego side sees
+// (data.internal.combined_config.capabilities) must be those of the configured target.
+type Pipe struct {
+	// custom rules loaded: "" none | "fs" WithCustomRulesFromFS (in-memory) | "paths" WithCustomRules (directory on disk) |
+	// "file" WithCustomRules (one file) | "fs-configured" in-memory, and the rule's category/title is also in the user config
+	Custom string `json:"custom"`
+	// user configuration: "" the yaml document with a rules section (as in every other case) | "caps-only" the yaml document
+	// with the capabilities section alone | "more" rules + ignore + project + features sections |
+	// "nil" no WithUserConfig at all | "empty" WithUserConfig(config.Config{})   (the last two: target without capabilities section)
+	Cfg string `json:"cfg"`
+	// "" | "enable-all" | "disable-all-enable" (Enable = titles) | "disable-category" (bugs) | "enable-category" (idiomatic, after disable-all) |
+	// "disable" (Enable = titles to disable)
+	Flags  string   `json:"flags"`
+	Enable []string `json:"enable"`
+	Prefix bool     `json:"prefix"` // WithPathPrefix(<directory of the files>)
+	Input  string   `json:"input"`  // "" WithInputModules | "paths" files written to disk, WithInputPaths
+	Debug  bool     `json:"debug"`  // WithDebugMode (GetConfig marshals the merged configuration)
 }
 
 type Notice struct {
@@ -204,7 +227,50 @@ type CaseOut struct {
 	Notices      []Notice       `json:"notices"`
 	RulesSkipped int            `json:"rules_skipped"`
 	FilesScanned int            `json:"files_scanned"`
+	// pipeline cases: the capabilities of the configuration handed to evaluation (GetConfig of the fully configured
+	// linter = data.internal.combined_config) next to those of the configured target (fields above)
+	Eval *CapsSeen `json:"eval_caps,omitempty"`
+	// regal's own capabilities (config.CapabilitiesForThisVersion), for the pipeline cases
+	This *CapsSeen `json:"this_caps,omitempty"`
+	// the user configuration has a capabilities section (pointer not nil)
+	UserHasCaps bool `json:"user_has_caps"`
+	// violations of the custom rule loaded through Pipe.Custom (it fires once per file)
+	CustomFired int `json:"custom_fired"`
 }
+
+type CapsSeen struct {
+	NBuiltins      int      `json:"n_builtins"`
+	Builtins       []string `json:"builtins"`
+	FutureKeywords []string `json:"future_keywords"`
+	Features       []string `json:"features"`
+}
+
+func capsSeen(c *config.Capabilities) *CapsSeen {
+	o := &CapsSeen{Builtins: []string{}, FutureKeywords: []string{}, Features: []string{}}
+	if c == nil {
+		return o
+	}
+	o.NBuiltins = len(c.Builtins)
+	for _, n := range interesting {
+		if _, ok := c.Builtins[n]; ok {
+			o.Builtins = append(o.Builtins, n)
+		}
+	}
+	o.FutureKeywords = append(o.FutureKeywords, c.FutureKeywords...)
+	o.Features = append(o.Features, c.Features...)
+	return o
+}
+
+const customRule = `# METADATA
+# description: every package is reported (loaded by the C19 harness; nothing to do with capabilities)
+package custom.regal.rules.naming["verif-custom-rule"]
+
+import data.regal.result
+
+report contains violation if {
+	violation := result.fail(rego.metadata.chain(), result.location(input["package"].path[1]))
+}
+`
 
 var interesting = []string{"sprintf", "strings.count", "object.keys", "count", "indexof_n", "any", "regex.match"}
 
@@ -230,6 +296,7 @@ type env struct {
 	mods   map[string]*ast.Module
 	tmp    string
 	gated  map[string]bool
+	nDirs  int
 }
 
 func parseKind(name, kind string) *ast.Module {
@@ -274,7 +341,9 @@ func newEnv(tmp string) *env {
 	return e
 }
 
-func (t Target) yamlDoc(e *env, disabled []string) map[string]any {
+func (t Target) yamlDoc(e *env, disabled []string) map[string]any { return t.yamlDocCfg(e, disabled, "", "") }
+
+func (t Target) yamlDocCfg(e *env, disabled []string, cfg, custom string) map[string]any {
 	rulesDoc := map[string]any{
 		"bugs":   map[string]any{"if-empty-object": map[string]any{"level": "error"}},
 		"custom": map[string]any{"one-liner-rule": map[string]any{"level": "error"}},
@@ -289,6 +358,17 @@ func (t Target) yamlDoc(e *env, disabled []string) map[string]any {
 		rulesDoc[ct[0]] = cat
 	}
 	doc := map[string]any{"rules": rulesDoc}
+	if custom == "fs-configured" {
+		rulesDoc["naming"] = map[string]any{"verif-custom-rule": map[string]any{"level": "warning"}}
+	}
+	switch cfg {
+	case "caps-only":
+		doc = map[string]any{}
+	case "more":
+		doc["ignore"] = map[string]any{"files": []any{"ignored/**"}}
+		doc["project"] = map[string]any{"roots": []any{"q"}}
+		doc["features"] = map[string]any{"remote": map[string]any{"check-version": false}}
+	}
 	caps := map[string]any{}
 	if t.Gen != nil {
 		caps["from"] = map[string]any{"file": e.genCapsFile(t.Version, t.Gen)}
@@ -429,12 +509,31 @@ func (e *env) runCase(c *CaseIn) (o CaseOut) {
 			o.ConfigErr = fmt.Sprintf("panic: %v", r)
 		}
 	}()
-	bs, err := json.Marshal(c.Target.yamlDoc(e, c.Disabled))
+	pipe := Pipe{}
+	if c.Pipe != nil {
+		pipe = *c.Pipe
+	}
+	bs, err := json.Marshal(c.Target.yamlDocCfg(e, c.Disabled, pipe.Cfg, pipe.Custom))
 	must(err)
 	var uc config.Config
-	if err := yaml.Unmarshal(bs, &uc); err != nil {
-		o.ConfigErr = err.Error()
-		return o
+	switch pipe.Cfg {
+	case "nil", "empty":
+		// no configuration file at all: the configured target is this version's capabilities
+		uc = config.Config{}
+		def := config.CapabilitiesForThisVersion()
+		o.NBuiltins = len(def.Builtins)
+		for _, n := range interesting {
+			if _, ok := def.Builtins[n]; ok {
+				o.Builtins = append(o.Builtins, n)
+			}
+		}
+		o.FutureKeywords = append([]string{}, def.FutureKeywords...)
+		o.Features = append([]string{}, def.Features...)
+	default:
+		if err := yaml.Unmarshal(bs, &uc); err != nil {
+			o.ConfigErr = err.Error()
+			return o
+		}
 	}
 	if uc.Capabilities != nil {
 		o.NBuiltins = len(uc.Capabilities.Builtins)
@@ -453,7 +552,11 @@ func (e *env) runCase(c *CaseIn) (o CaseOut) {
 		o.FutureKeywords = append([]string{}, uc.Capabilities.FutureKeywords...)
 		o.Features = append([]string{}, uc.Capabilities.Features...)
 	}
-	base := linter.NewLinter().WithUserConfig(uc)
+	// the reference: the configured target alone, no other option (rule bodies are evaluated under ITS merged configuration)
+	base := linter.NewLinter()
+	if pipe.Cfg != "nil" {
+		base = base.WithUserConfig(uc)
+	}
 	merged, err := base.GetConfig()
 	if err != nil {
 		o.ConfigErr = "merge: " + err.Error()
@@ -502,7 +605,32 @@ func (e *env) runCase(c *CaseIn) (o CaseOut) {
 		mods[f.Name] = parseKind(f.Name, f.Kind)
 	}
 	input := rules.NewInput(content, mods)
-	rep, err := base.WithInputModules(&input).Lint(e.ctx)
+	l := base
+	nameOf := func(file string) string { return file }
+	if c.Pipe != nil {
+		var dir string
+		l, dir, err = e.piped(base, pipe, c.Files, &input)
+		if err != nil {
+			o.LintErr = "pipeline set-up: " + err.Error()
+			return o
+		}
+		nameOf = func(file string) string {
+			// files linted from disk are reported with the path given (or relative to the prefix)
+			file = strings.TrimPrefix(strings.TrimPrefix(file, dir), "/")
+			return file
+		}
+		ec, err := l.GetConfig()
+		if err != nil {
+			o.LintErr = "GetConfig of the configured linter: " + err.Error()
+			return o
+		}
+		o.Eval = capsSeen(ec.Capabilities)
+		o.This = capsSeen(config.CapabilitiesForThisVersion())
+		o.UserHasCaps = uc.Capabilities != nil
+	} else {
+		l = base.WithInputModules(&input)
+	}
+	rep, err := l.Lint(e.ctx)
 	if err != nil {
 		o.LintErr = err.Error()
 		return o
@@ -510,7 +638,10 @@ func (e *env) runCase(c *CaseIn) (o CaseOut) {
 	o.Violations = map[string]int{}
 	for _, v := range rep.Violations {
 		if cat, ok := gatedTitles[v.Title]; ok && cat == v.Category {
-			o.Violations[v.Location.File+"|"+v.Category+"/"+v.Title]++
+			o.Violations[nameOf(v.Location.File)+"|"+v.Category+"/"+v.Title]++
+		}
+		if v.Title == "verif-custom-rule" {
+			o.CustomFired++
 		}
 	}
 	o.Notices = []Notice{}
@@ -521,6 +652,76 @@ func (e *env) runCase(c *CaseIn) (o CaseOut) {
 	o.FilesScanned = rep.Summary.FilesScanned
 	return o
 }
+
+// piped applies the other linter options of a pipeline case; files linted from disk are written below a fresh directory
+func (e *env) piped(base linter.Linter, p Pipe, files []FileSpec, input *rules.Input) (linter.Linter, string, error) {
+	l := base
+	dir := ""
+	if p.Input == "paths" || p.Prefix || p.Custom == "paths" || p.Custom == "file" {
+		capsFileMu.Lock()
+		e.nDirs++
+		dir = filepath.Join(e.tmp, fmt.Sprintf("pipe_%d", e.nDirs))
+		capsFileMu.Unlock()
+		if err := os.MkdirAll(dir, 0o755); err != nil {
+			return l, dir, err
+		}
+	}
+	switch p.Custom {
+	case "fs", "fs-configured":
+		l = l.WithCustomRulesFromFS(fstest.MapFS{"rules/naming.rego": &fstest.MapFile{Data: []byte(customRule)}}, ".")
+	case "paths", "file":
+		rd := filepath.Join(dir, "custom_rules", "naming")
+		if err := os.MkdirAll(rd, 0o755); err != nil {
+			return l, dir, err
+		}
+		if err := os.WriteFile(filepath.Join(rd, "rule.rego"), []byte(customRule), 0o644); err != nil {
+			return l, dir, err
+		}
+		if p.Custom == "paths" {
+			l = l.WithCustomRules([]string{filepath.Join(dir, "custom_rules")})
+		} else {
+			l = l.WithCustomRules([]string{filepath.Join(rd, "rule.rego")})
+		}
+	}
+	switch p.Flags {
+	case "enable-all":
+		l = l.WithEnableAll(true)
+	case "disable-all-enable":
+		l = l.WithDisableAll(true).WithEnabledRules(p.Enable...)
+	case "disable-category":
+		l = l.WithDisabledCategories("bugs")
+	case "enable-category":
+		l = l.WithDisableAll(true).WithEnabledCategories("idiomatic")
+	case "disable":
+		l = l.WithDisabledRules(p.Enable...)
+	}
+	if p.Debug {
+		l = l.WithDebugMode(true).WithPrintHook(nopHook{})
+	}
+	src := filepath.Join(dir, "src")
+	if p.Prefix {
+		l = l.WithPathPrefix(src)
+	}
+	if p.Input == "paths" {
+		var paths []string
+		for _, f := range files {
+			fp := filepath.Join(src, f.Name)
+			if err := os.MkdirAll(filepath.Dir(fp), 0o755); err != nil {
+				return l, dir, err
+			}
+			if err := os.WriteFile(fp, []byte(textOf(f.Kind)), 0o644); err != nil {
+				return l, dir, err
+			}
+			paths = append(paths, fp)
+		}
+		return l.WithInputPaths(paths), src, nil
+	}
+	return l.WithInputModules(input), src, nil
+}
+
+type nopHook struct{}
+
+func (nopHook) Print(print.Context, string) error { return nil }
 
 // signature: what the gates can see of a target's capabilities
 func (e *env) signature(t Target) string {
